@@ -140,6 +140,69 @@ def like_free_case(draw, tier='quick'):
 
 
 @st.composite
+def like_lattice_case(draw, tier='quick'):
+    """LIKE n BUT where cell n is a LAT=1 cell filled with one universe:
+    the copy is a lattice of its own, developed over the --lattice ranges
+    given for ITS number, which differ from those of cell n."""
+    b = gen_hier.Builder(draw, tier, {'lattice': False})
+    d = draw
+    world = b.add_surf('so', [7.0])
+    s_hi = b.add_surf('px', [0.5])
+    s_lo = b.add_surf('px', [-0.5])
+    c1 = b.add_surf('rpp', [-3.2, 3.2, -2.5, -0.5, -1.0, 1.0])
+    c2 = b.add_surf('rpp', [-3.2, 3.2, 0.5, 2.5, -1.0, 1.0])
+    pin = b.add_surf('so', [d(st.sampled_from([0.3, 0.4]))])
+    uf, ul1, ul2 = b.new_uid(), b.new_uid(), b.new_uid()
+    m1, m2, m3 = b.material(), b.material(), b.material()
+    n_id, l_id = b.new_cid(), b.new_cid()
+
+    def rng():
+        lo = d(st.integers(-2, 0))
+        return (lo, lo + d(st.integers(0, 3)))
+    r1 = rng()
+    r2 = rng()
+    if r2 == r1:
+        r2 = (r1[0], r1[1] + 1)
+    base = md.cell(n_id, 0, None, md.AND(md.S(-s_hi), md.S(s_lo)),
+                   imp={'n': 1}, u=ul1,
+                   fill={'u': uf, 'ranges': [list(r1)], 'univs': None,
+                         'tr': None})
+    base['lat'] = 1
+    but = {'u': ul2}
+    how = d(st.sampled_from(['u', 'u+fill', 'u+trcl']))
+    if how == 'u+fill':
+        but['fill'] = {'u': uf, 'ranges': [list(r2)], 'univs': None,
+                       'tr': None}
+    elif how == 'u+trcl':
+        but['trcl'] = {'inline': md.trspec(
+            [d(st.sampled_from([0.0, 0.25])), 0.0, 0.0], None, n_entries=3)}
+    like = md.cell(l_id, 0, None, None, like={'base': n_id, 'but': but})
+    cells = [md.cell(b.new_cid(), m1[0], m1[1], md.S(-pin), imp={'n': 1},
+                     u=uf),
+             md.cell(b.new_cid(), m2[0], m2[1], md.S(pin), imp={'n': 1},
+                     u=uf),
+             base, like]
+    k1 = md.cell(b.new_cid(), 0, None, md.S(-c1), imp={'n': 1},
+                 fill={'u': ul1, 'tr': None})
+    k2 = md.cell(b.new_cid(), 0, None, md.S(-c2), imp={'n': 1},
+                 fill={'u': ul2, 'tr': None})
+    rest = md.cell(b.new_cid(), m3[0], m3[1],
+                   md.AND(md.S(-world), md.S(c1), md.S(c2)), imp={'n': 1})
+    gy = md.cell(b.new_cid(), 0, None, md.S(world), imp={'n': 0})
+    cells += [k1, k2, rest, gy]
+    if d(st.booleans()):
+        cells = [cells[o] for o in d(st.permutations(list(range(len(cells)))))]
+    b.deck['cells'] = cells
+    opts = ['%d,%d:%d' % ((n_id,) + r1), '%d,%d:%d' % ((l_id,) + r2)]
+    if d(st.booleans()):
+        opts = opts[::-1]
+    b.deck['lattice_opts'] = opts
+    b.labels.update({'like', 'like:lattice-base', 'like:lattice:' + how})
+    return {'deck': b.deck, 'labels': sorted(b.labels), 'tier': tier,
+            'chain': 1, 'n_over': 2}
+
+
+@st.composite
 def with_imp_data_card(draw, base):
     """In one case out of three the importances move to an IMP:N data card
     (one entry per cell card, by position).  A LIKE cell has an entry of its
@@ -178,7 +241,11 @@ def with_imp_data_card(draw, base):
 def strategy(tier):
     return with_imp_data_card(st.one_of(like_free_case(tier),
                                         like_free_case(tier),
-                                        gen_hier.like_case(tier)))
+                                        like_free_case(tier),
+                                        like_free_case(tier),
+                                        gen_hier.like_case(tier),
+                                        gen_hier.like_case(tier),
+                                        like_lattice_case(tier)))
 
 
 def budget(tier):
